@@ -1048,6 +1048,11 @@ func c02Traces(c *Ctx, r *RuleResult, runs []*fsRun) {
 			trigger = &osOutcome{Call: "no OS fault", Role: "-", Pos: "-"}
 			when = ""
 		}
+		// with no fault at all the failure is the code's deterministic answer
+		// to a state it observed (a missing source, ...): name that state
+		if faults == 0 && trigger.Call != "no OS fault" {
+			when += " (no fault: " + trigger.Outcome + ")"
+		}
 		k := fmt.Sprintf("%s|%s|%s[%s]%s", run.Method, strings.Join(changes, ","), trigger.Call, trigger.Role, when)
 		if seen[k] {
 			continue
